@@ -24,7 +24,7 @@ ASSUMPTIONS = [
 ]
 CASES = {"quick": 15000, "thorough": 600000}
 MIN_CASES = {"quick": 3000, "thorough": 10000}
-REQUIRED_COUNTERS = ["allocated_again_after_initial_grid", "allocated_again_after_further_refinement", "hard_modules_relocated_before_allocation", "ratios_compared", "membership_judged", "fixed_cells_checked", "module_areas_compared", "squares_checked",
+REQUIRED_COUNTERS = ["rectangles_reassigned_through_the_api", "allocated_again_after_initial_grid", "allocated_again_after_further_refinement", "hard_modules_relocated_before_allocation", "ratios_compared", "membership_judged", "fixed_cells_checked", "module_areas_compared", "squares_checked",
                      "refine:none", "refine:split", "refine:grid", "zero:on", "zero:off", "full_cover_cells"]
 
 
@@ -53,7 +53,7 @@ def generate(rng, tier, i):
         for name, m in doc["Modules"].items():
             if m.get("hard") is True:
                 move[name] = [rng.choice([-1, 1, 2, 0.5]) * float(d["W"]) / max(d["nx"], 1), rng.choice([0, 1, -0.5]) * float(d["H"]) / max(d["ny"], 1)]
-    return {"cls": ref[0], "die": slim, "netlist": doc, "refine": ref, "zero": rng.random() < 0.3, "move": move, "allocate_twice": twice_on_empty or rng.random() < 0.2}
+    return {"cls": ref[0], "die": slim, "netlist": doc, "refine": ref, "zero": rng.random() < 0.3, "move": move, "allocate_twice": twice_on_empty or rng.random() < 0.2, "reassign": rng.random() < 0.2}
 
 
 def directed():
@@ -72,6 +72,10 @@ def run(case):
     from frame.allocation.allocation import create_initial_allocation
     d = dict(case["die"])
     d["netlist"] = case["netlist"]
+    if case.get("reassign"):
+        # the same rectangles handed over again through Netlist.assign_rectangles (movable hard and soft modules)
+        d["assign"] = {k: (m["rectangles"] if not isinstance(m["rectangles"][0], (int, float)) else [m["rectangles"]])
+                       for k, m in case["netlist"]["Modules"].items() if "rectangles" in m and not m.get("fixed")}
     die, nl = dieutil.build_die(d, "tree")
     ref = case["refine"]
     if ref[0] == "split" and len(die.ground_regions) + len(die.specialized_regions) > 0:
@@ -89,6 +93,12 @@ def check(case, ctx):
         return
     die, nl = res
     ctx.count("refine:" + case["refine"][0])
+    if case.get("reassign"):
+        ctx.count("rectangles_reassigned_through_the_api")
+    want_fixed = sorted(tuple(map(float, r[:4])) for m in case["netlist"]["Modules"].values() if m.get("fixed") for r in (m["rectangles"] if not isinstance(m["rectangles"][0], (int, float)) else [m["rectangles"]]))
+    if sorted(dieutil.rect_key(r)[:4] for r in die.fixed_regions) != want_fixed:
+        ctx.violation("fixed_regions", f"the die's fixed regions {sorted(dieutil.rect_key(r)[:4] for r in die.fixed_regions)} are not the rectangles of the fixed modules {want_fixed}")
+        return
     if case.get("move"):
         from frame.geometry.geometry import Point
         for m in nl.modules:
